@@ -14,7 +14,7 @@ import (
 func init() {
 	register("C01", PropCheck{
 		Title:      "Every rendered page fits the configured output size",
-		Explain:    "The bound itself (not the arithmetic that tries to make content fit) is decided for all inputs: (R1) the page string returned by the page assembler, Page.Render and Vm.Render is, on every non-error return, the very value that passed Sizer.Check on its ok edge (or the result of such a function), unless no sizer is configured - nothing is concatenated after the audit; (R2) everything DefaultEngine.Flush writes to the client's writer is such an audited page; (R3) the limit is wired: Sizer.outputSize is only set by NewSizer from its argument, the engine passes NewSizer(cfg.OutputSize) to NewVm exactly when OutputSize > 0, Vm.sizer is only set by NewVm, Vm.Reset re-attaches it to the page whenever it is non-nil, Page.sizer is only set by WithSizer; (R4) Sizer.Check returns false exactly on the edge len(s) > outputSize under outputSize > 0, comparing the byte length of its argument with the configured field itself; (R5) sink rows reach their page unmodified: the string the row grouping appends is the element of the row list itself, never a slice or other derivative - content that does not fit is an error, not a silent cut (shared with C02 R3; added after seeded change C01-F). R3 also requires that no library code stores to Config.OutputSize (a minimum or rounding applied by the engine changes the limit the audit uses; added after seeded change C01-K).",
+		Explain:    "The bound itself (not the arithmetic that tries to make content fit) is decided for all inputs: (R1) the page string returned by the page assembler, Page.Render and Vm.Render is, on every non-error return, the very value that passed Sizer.Check on its ok edge (or the result of such a function), unless no sizer is configured - nothing is concatenated after the audit; (R2) everything DefaultEngine.Flush writes to the client's writer is such an audited page; (R3) the limit is wired: Sizer.outputSize is only set by NewSizer from its argument, the engine passes NewSizer(cfg.OutputSize) to NewVm exactly when OutputSize > 0, Vm.sizer is only set by NewVm, Vm.Reset re-attaches it to the page whenever it is non-nil, Page.sizer is only set by WithSizer; (R4) Sizer.Check returns false exactly on the edge len(s) > outputSize under outputSize > 0, comparing the byte length of its argument with the configured field itself; (R5) sink rows reach their page unmodified: the string the row grouping appends is the element of the row list itself, never a slice or other derivative - content that does not fit is an error, not a silent cut (shared with C02 R3; added after seeded change C01-F). R3 also requires that no library code stores to Config.OutputSize (a minimum or rounding applied by the engine changes the limit the audit uses; added after seeded change C01-K). (R6) in the function of package engine that builds the Sizer, every path to a return or to vm.NewVm passes render.NewSizer or the edge on which Config.OutputSize was tested zero: no other configuration value decides that a size-limited engine renders unaudited (added after seeded change C01-Q, a helper that skipped the Sizer for CacheSize <= OutputSize).",
 		NotDecided: "that content which could fit is not refused needlessly; 'instead of silently truncating' beyond the existence of the error edge; pages of 4 GiB and more (uint32 length).",
 		Assume:     []string{"page strings are shorter than 2^32 bytes"},
 		Run:        runC01,
@@ -157,6 +157,7 @@ func runC01(w *core.World, r *core.Report) {
 	r.Rule("R1", "page strings returned by the assembler, Page.Render and Vm.Render are the value that passed Sizer.Check (ok edge) or come from such a function")
 	r.Rule("R2", "DefaultEngine.Flush writes only audited pages to the client")
 	r.Rule("R3", "limit wiring: NewSizer(cfg.OutputSize) -> NewVm -> Vm.sizer -> Page.WithSizer on every reset; single writers")
+	r.Rule("R6", "a Sizer is built whenever Config.OutputSize is set: no other configuration value decides that a size-limited engine renders unaudited")
 	r.Rule("R5", "sink rows are appended to their page unmodified: content that does not fit is an error, never silently cut")
 	r.Rule("R4", "Sizer.Check: false exactly on len(s) > outputSize (byte length, the field itself) under outputSize > 0")
 
@@ -415,6 +416,7 @@ func runC01(w *core.World, r *core.Report) {
 	}
 	// ---- R5 -----------------------------------------------------------------------------------
 	checkRowsUnmodified(w, r, "R5")
+	checkSizerWheneverOutputSizeSet(w, r, "R6")
 }
 
 func keysOf(m map[string]bool) []string {
